@@ -1,3 +1,4 @@
+mod ranges;
 mod reasm;
 mod util;
 
@@ -8,6 +9,7 @@ fn main() {
     let out = match cmd {
         "reasm-replay" => reasm::replay(rest),
         "reasm-record" => reasm::record(rest),
+        "ranges-replay" => ranges::replay(rest),
         _ => {
             eprintln!("unknown command {cmd}");
             std::process::exit(2);
